@@ -51,11 +51,16 @@ impl Cl {
         match rx.await { Ok(true) => Ok(()), _ => Err(E(format!("injected failure of {kind} {}->{to}", self.me))) }
     }
 }
+/// when set, the RESPONSE of every coordination RPC is a separate event the explorer releases (a response may be slower than the peer's next request)
+static REPLY_GATES: std::sync::atomic::AtomicBool = std::sync::atomic::AtomicBool::new(false);
+impl Cl {
+    async fn reply_gate(&self, to: usize, kind: &'static str) { if REPLY_GATES.load(Ordering::SeqCst) { let _ = self.gate(to, kind).await; } }
+}
 impl PolicyClient for Cl {
     type Error = E;
-    async fn validate(&self, to: usize, req: ValidateRequest) -> Result<(), E> { self.gate(to, "validate").await?; m(self.sh.handles.get().unwrap()[to].validate(req).await) }
-    async fn run(&self, to: usize, req: RunRequest) -> Result<(), E> { self.gate(to, "run").await?; m(self.sh.handles.get().unwrap()[to].run(req).await) }
-    async fn consts(&self, to: usize, req: ConstsRequest) -> Result<(), E> { self.gate(to, "consts").await?; m(self.sh.handles.get().unwrap()[to].consts(req).await) }
+    async fn validate(&self, to: usize, req: ValidateRequest) -> Result<(), E> { self.gate(to, "validate").await?; let r = m(self.sh.handles.get().unwrap()[to].validate(req).await); self.reply_gate(to, "validate-reply").await; r }
+    async fn run(&self, to: usize, req: RunRequest) -> Result<(), E> { self.gate(to, "run").await?; let r = m(self.sh.handles.get().unwrap()[to].run(req).await); self.reply_gate(to, "run-reply").await; r }
+    async fn consts(&self, to: usize, req: ConstsRequest) -> Result<(), E> { self.gate(to, "consts").await?; let r = m(self.sh.handles.get().unwrap()[to].consts(req).await); self.reply_gate(to, "consts-reply").await; r }
     async fn msg(&self, to: usize, msg: MpcMsg) -> Result<(), E> {
         if *SLOW.lock().unwrap() == Some((self.me, to)) { let (tx, rx) = oneshot::channel(); self.sh.held.lock().unwrap().push_back((to, msg, tx)); return rx.await.unwrap_or_else(|_| Err(E("slow link dropped".into()))); }
         self.sh.msgs.fetch_add(1, Ordering::SeqCst); m(self.sh.handles.get().unwrap()[to].mpc_msg(msg).await) }
@@ -294,6 +299,23 @@ async fn main() {
         let desc = |extra: serde_json::Value| json!({"case": case, "n": n, "leader": leader, "outputs": outs, "consts": consts, "extra": extra});
         match prop.as_str() {
             "C13" => {
+                // responses as separate events. Corpus: three parties, both FOLLOWERS supply constants, the response to the leader's second run request is the
+                // slowest event of all (both followers' constants requests reach the leader before it); then one in three seeded cases with all responses gated
+                if case < 2 || case % 3 == 2 {
+                    let (n2, leader2, prog2) = if case < 2 { (3usize, 1usize, P3C2) } else { (n, leader, prog) }; let outs2 = if case < 2 { vec![true; 3] } else { outs.clone() }; let consts2 = if case < 2 { true } else { consts };
+                    REPLY_GATES.store(true, Ordering::SeqCst); let mut released = false;
+                    if case < 2 { *HOLD.lock().unwrap() = Some(("run-reply", 1, if case == 0 { 2 } else { 0 })); }
+                    let o = scenario(n2, leader2, &outs2, consts2, &vec![prog2; n2], &vec![leader2; n2], 1, &mut r, None, move |_step, idle| { if !released && idle >= 4 { released = true; *HOLD.lock().unwrap() = None; } None }).await; execs += 1;
+                    REPLY_GATES.store(false, Ordering::SeqCst); *HOLD.lock().unwrap() = None; correspond(&mut m, &o, None, &mut disagreements, &mut steps);
+                    *dist.entry(if case < 2 { "replies:slow-run-reply-corpus".to_string() } else { "replies:gated".to_string() }).or_default() += 1; distinct.insert(format!("replies {:?}", o.log));
+                    let want = expected_prog(n2, prog2); let mut bad = vec![];
+                    for p in 0..n2 { let got: Vec<&String> = o.outputs.iter().filter(|(q, _)| *q == p).map(|(_, s)| s).collect(); if outs2[p] && got != vec![&want] { bad.push(format!("party {p} destination got {got:?}, want one {want}")); } }
+                    if o.sched.iter().any(|x| x != "Ok") { bad.push(format!("schedule calls: {:?}", o.sched)); }
+                    if o.finished.iter().any(|f| !f) { bad.push(format!("state machines not stopped: {:?}", o.finished)); } if o.panicked.iter().any(|p| *p) { bad.push("actor panicked".into()); }
+                    if o.permits.iter().any(|p| *p != 1) { bad.push(format!("permits at the end: {:?}", o.permits)); }
+                    if !bad.is_empty() { failures.push(json!({"witness": "C13:slow-response", "failure": bad, "case": json!({"n": n2, "leader": leader2, "consts": consts2, "responses_are_events": true, "log": o.log})})); }
+                    continue;
+                }
                 let o = scenario(n, leader, &outs, consts, &vec![prog; n], &vec![leader; n], 1, &mut r, None, |_, _| None).await; execs += 1; correspond(&mut m, &o, None, &mut disagreements, &mut steps);
                 let want = expected_prog(n, prog); let key = o.log.iter().filter(|l| l.starts_with("deliver")).cloned().collect::<Vec<_>>().join(";");
                 *dist.entry(format!("n:{n}")).or_default() += 1; *dist.entry(format!("consts:{consts}")).or_default() += 1; distinct.insert(key);
